@@ -259,7 +259,9 @@ def multirange(chk, P):
     defn = P.cls(mod, "Multi_Range_Defn")
     for has_d, has_d2 in ((True, True), (True, False), (False, False)):
         offers = "f offers %s" % (" and ".join(n for n, h in (("deriv", has_d), ("deriv2", has_d2)) if h) or "no analytic derivative")
-        for scenario, rv in (("selected", 3), ("none", 1)):
+        from fractions import Fraction
+        tiny = Fraction(1, 10 ** 12)
+        for scenario, rv in (("selected", 3), ("none", 1), ("selected", 2 + tiny), ("none", 2 - tiny), ("none", 2)):
             I = F.make_interp(P)
             I.assumption_fns.append(F.hasattr_true({"deriv": has_d, "deriv2": has_d2}))
             rd = I.instantiate(defn, [Const(">"), Num(ep.const(2)), W.param("f")], {}, None)
@@ -275,7 +277,7 @@ def multirange(chk, P):
                     what = "%s returns %s when no range contains r (%s)" % (meth, "default_value" if order == 0 else "0.0", offers)
                 ok, why = ep.equal(v, want)
                 chk.ob("C07.O5", what, ok, site=cls.lookup(meth).site(), found=why or v, expect=want,
-                       key="C07.O5|%s|%s|%s%s" % (scenario, meth, int(has_d), int(has_d2)))
+                       key="C07.O5|%s|%s|%s%s" % (scenario if rv in (3, 1) else "%s@%s" % (scenario, float(rv)), meth, int(has_d), int(has_d2)))
 
 
 def phi_leaves(v, conds=()):
